@@ -3,7 +3,7 @@
    hypotheses are satisfiable.  Model: CodecModel.v (tied to cloudsync/sync/state.py by
    harness/checks/c08.py). *)
 From Coq Require Import NArith ZArith List Bool Permutation.
-From CS Require Import Sx Str CodecModel CodecProofs CodecCommitProofs.
+From CS Require Import Sx Str CodecModel CodecProofs CodecCommitProofs CodecReloadProofs.
 Import ListNotations.
 Local Open Scope N_scope.
 
@@ -117,6 +117,28 @@ Theorem C08_exact_view : forall ps, Ser (ents ps) -> exact ps -> live_view ps = 
 Proof. exact exact_view. Qed.
 Print Assumptions C08_exact_view.
 
+(* ------------------------------------------------------------------ reload *)
+
+(* a restart over a store that is exact for a state whose live entries have well-formed field
+   shapes loads exactly the live entries (normalised: priority 0, force_sync False, _last_gotten 0)
+   and deletes no row *)
+Theorem C08_reload_entries : forall ps, Ser (ents ps) -> exact ps -> live_wf ps ->
+  (forall e', In e' (fst (load (sto ps))) <->
+     exists e i, In e (ents ps) /\ is_trash e = false /\ e_sid e = Some i /\ e' = norm_entry i e) /\
+  snd (load (sto ps)) = sto ps.
+Proof. exact reload_entries. Qed.
+Print Assumptions C08_reload_entries.
+
+(* ... hence the same entries (by storage id) under every oid, under every path, and the same pending set *)
+Theorem C08_reload_same_lookups : forall ps, Ser (ents ps) -> exact ps -> live_wf ps ->
+  forall x,
+    (forall sd oid, In x (lookup_oid sd oid (fst (load (sto ps)))) <-> In x (lookup_oid sd oid (live (ents ps)))) /\
+    (forall sd p, In x (lookup_path sd p (fst (load (sto ps)))) <-> In x (lookup_path sd p (live (ents ps)))) /\
+    (In x (pending_set (fst (load (sto ps)))) <-> In x (pending_set (live (ents ps)))).
+Proof. exact reload_same_lookups. Qed.
+Print Assumptions C08_reload_same_lookups.
+
+
 (* ------------------------------------------------------------------ non-vacuity *)
 Example wf_nonvacuous :
   wf_entry (mkEntry (mkSide ODir (MInt 0%Z) (MTup [MBin [1; 255]; MMap [(MStr [107], MInt (-5)%Z)]]) (MFloat 7)
@@ -137,3 +159,11 @@ Proof. repeat split; vm_compute; reflexivity. Qed.
 Example legacy_nonvacuous :
   keys_ok (legacy_row (w_side w_a) (w_side MNil) (MBool true) MNil LtTrashedReason) = true.
 Proof. reflexivity. Qed.
+
+Example reload_nonvacuous :
+  let ps := fst (commit true w_bad (fst (exec true w_hist (init PSqlite)))) in
+  live_wf ps /\ length (fst (load (sto ps))) = 2%nat.
+Proof.
+  split; [|vm_compute; reflexivity].
+  intros e H. vm_compute in H. destruct H as [<-|[<-|[<-|[]]]]; intros Ht; try reflexivity; vm_compute in Ht; discriminate Ht.
+Qed.
